@@ -101,6 +101,27 @@ fn drop_reopen(run: &mut Run, place: u8, sel: u64, next_cfg: &crate::ops::CfgSpe
         Some(Ok(())) => {}
         other => return Err(Fail::new("flush-ack-missing", format!("last flush before drop: acknowledgement {:?}", other))),
     }
+    // 1b. In some cycles the caller goes on writing after that acknowledgement and drops the
+    // store without another flush: 1-3 operations (appends that rotate chunks, a purge that makes
+    // closed chunks obsolete, a vote) stay unacknowledged. The directory must still open and
+    // show a prefix of the issued writes that contains everything acknowledged.
+    let acked_records = run.model.records.len();
+    let n_extra = (mix(sel, 99) % 4) as usize;
+    if n_extra > 0 {
+        let extras = [
+            OpSpec::Append { n: 3, term: TermSel::Same, first: FirstSel::Small(1), pay: PaySel::Tiny(6) },
+            OpSpec::Purge { pos: (sel >> 12) as u16, beyond: 0, noop: false },
+            OpSpec::Append { n: 2, term: TermSel::Bump(1), first: FirstSel::Zero, pay: PaySel::Mid },
+            OpSpec::Vote { bump: 1, node: 1 },
+            OpSpec::Purge { pos: 65535, beyond: 0, noop: false },
+        ];
+        let start = (mix(sel, 98) % extras.len() as u64) as usize;
+        for k in 0..n_extra {
+            run.exec(&extras[(start + k) % extras.len()])?;
+        }
+        run.classes.hit("unflushed_writes_before_drop");
+    }
+    let issued_records = run.model.records.len();
     // 2. drop on a helper thread (a drop that waits for the worker needs the worker stepped)
     let Inst { rl, worker, no } = run.inst.take().expect("store open");
     let pending_at_drop = trace::parked(worker).is_some() || !rl.verif_worker_idle();
@@ -158,9 +179,33 @@ fn drop_reopen(run: &mut Run, place: u8, sel: u64, next_cfg: &crate::ops::CfgSpe
         after += step_old(worker, no, 1);
     }
     run.classes.hit("reopen");
-    run.open_store(next_cfg).map_err(|e| Fail::new("open-after-drop-failed", format!("open after flush-ack + drop failed: {e}")))?;
-    run.check_state()?;
-    run.check_full_read()?;
+    run.open_store(next_cfg).map_err(|e| Fail::new("open-after-drop-failed", format!("open after flush-ack{} + drop failed: {e}", if issued_records > acked_records { " + unflushed writes" } else { "" })))?;
+    if issued_records == acked_records {
+        run.check_state()?;
+        run.check_full_read()?;
+    } else {
+        // unflushed writes were pending at the drop: any prefix that contains the acknowledged
+        // records is fine; the history continues from what the store shows
+        let snap = crate::driver::observe(run.rl()).map_err(|e| Fail::new("read-error", format!("read after reopen failed: {e}")))?;
+        match (acked_records..=issued_records).rev().find(|i| run.model.prefix[*i] == snap) {
+            Some(i) => {
+                if i < issued_records {
+                    run.classes.hit("unflushed_writes_lost_at_drop");
+                    run.model = crate::model::Model::from_snapshot(snap);
+                    run.layout = None;
+                }
+            }
+            None => {
+                return Err(Fail::new(
+                    "state-after-drop-is-no-acknowledged-prefix",
+                    format!(
+                        "flush acknowledged after {acked_records} records, {} more operations journalled without a flush, drop, reopen: the store shows state {:?} with {} entries {:?}, which is not the state after any prefix of the issued writes that contains the acknowledged ones (model after the acknowledged records: {:?})",
+                        issued_records - acked_records, snap.st, snap.log.len(), crate::driver::brief(&snap.entries()), run.model.prefix[acked_records].st
+                    ),
+                ));
+            }
+        }
+    }
     if place == 1 {
         after += step_old(worker, no, 1000);
     }
